@@ -153,7 +153,7 @@ def cells_rules(run, r_cells, r_pair, r_guard, ast):
                 exact = sorted(map(sorted, [a for a in total if g <= a])) == sorted(map(sorted, lst))
                 cond[c] = (g, exact)
             table[nval] = (pushes, cond)
-        G = frozenset({("concrete", True), ("group.has_concrete_classes", True)})
+        G = frozenset({("param:bool", True), ("*.has_concrete_classes", True)})     # the function's bool parameter (outer dimensions) and this group's flag
         exp_push = {0: {"not_implemented"}, 1: {"the sole element"}, 2: {"ambiguous"}, 3: {"ambiguous"}}
         for nval in (0, 1, 2, 3):
             pushes, cond = table[nval]
@@ -211,7 +211,7 @@ def cells_rules(run, r_cells, r_pair, r_guard, ast):
             if len(rec) == 1:
                 last = rec[0]["c"][-1]
                 got = dtab.guard_atoms([(last, True)])
-                okt = got == frozenset({("concrete", True), ("group.has_concrete_classes", True)})
+                okt = got == frozenset({("param:bool", True), ("*.has_concrete_classes", True)})
             run.instance(r_guard, "%s: the recursion passes concrete && group.has_concrete_classes" % short(f), (f["file"], rec[0]["l"] if rec else f["line"]), ok=okt)
             if not okt:
                 run.violation(r_guard, "compiler::build_dispatch_table|concrete-thread", "the concreteness flag handed to the next dimension is %s; it must combine the outer dimensions' flag with this group's (concrete && group.has_concrete_classes)" % (
@@ -1066,7 +1066,8 @@ def hash_rules(run, r_accept, r_same, r_publish, r_checked, r_allids, ast):
         if len(idxv) != 1:
             run.broken.append("%s: index variable not found" % short(f))
             continue
-        ps = astq.enum_paths(f["body"], lambda c: None, lambda n: n.get("k") == "CallExpr" and n.get("callee") == "abort")
+        ps = astq.enum_paths(f["body"], lambda c: None, lambda n: (n.get("k") == "CallExpr" and n.get("callee") == "abort") or (
+            n.get("k") in ("CallExpr", "CXXOperatorCallExpr", "CXXMemberCallExpr") and any((astq.refname(y) or "").endswith("::error") for y in astq.walk(n))))
         ok = True
         why = ""
         for p in ps:
@@ -1116,6 +1117,13 @@ def hash_rules(run, r_accept, r_same, r_publish, r_checked, r_allids, ast):
                 if not any(n.get("callee") == "abort" for k, n in p["events"]):
                     ok = False
                     why = "a rejecting path does not abort"
+                pm = re.search(r"checked_perfect_hash<(.*)>::hash_type_id$", f["name"])
+                bases = ast.policies.get(pm.group(1) if pm else "", set())
+                has_handler = not bases or any("error_handler" in b or "vectored_error" in b or "throw_error" in b for b in bases)
+                if ok and has_handler and not any(any((astq.refname(y) or "").endswith("::error") for y in astq.walk(n)) for k, n in p["events"]):
+                    ok = False
+                    why = "a rejecting path aborts without calling the policy's error handler (guards: %s): the unknown class is not reported" % sorted(
+                        (astq.text(c)[:40], pol) for c, pol in p["guards"])
         run.instance(r_checked, "%s: the index is returned only when in range and control[index] is the id" % short(f), (f["file"], f["line"]), ok=ok)
         if not ok:
             run.violation(r_checked, "checked_perfect_hash::hash_type_id|checks", why, (f["file"], f["line"]))
@@ -1748,7 +1756,9 @@ def table_rules(run, rule, ast):
         ok = False
         if len(rec) == 1:
             a = rec[0]["c"][1:]
-            pd = {p["name"]: p["did"] for p in f["params"]}
+            # the function's parameters by position (m, dim, group_iter, candidates, concrete) - the recursive call passes them in the same positions
+            ps_ = f["params"]
+            pd = {"dim": ps_[1]["did"], "group_iter": ps_[2]["did"], "candidates": ps_[3]["did"]} if len(ps_) >= 4 else {}
             dimv = astq.affine(a[1], {pd.get("dim"): {"dim": 1}})
             its = [x for x in astq.walk(a[2]) if x.get("k") == "CXXOperatorCallExpr" and x.get("oop") == "-"]
             it = its[0] if its else {}
@@ -1852,6 +1862,15 @@ def best_rules(run, rule, ast):
         if len(outer) != 1 or not decls:
             run.broken.append("%s: not in the form 'result vector; for each candidate ...; return'" % short(f))
             continue
+        # nothing but `result; for each candidate ...; return result`: a shortcut that returns before / instead of the pairwise
+        # scan decides the best set by something else than the specificity order
+        extra = [n for n in body.get("c") or [] if n.get("k") not in ("DeclStmt", "CXXForRangeStmt", "ReturnStmt", "NullStmt") and not (
+            n.get("k") in ("CXXOperatorCallExpr", "ExprWithCleanups") and any(x.get("k") == "MemberExpr" and x.get("member") == "trace" for x in astq.walk(n)))]
+        bypass = [n for n in extra if any(x.get("k") == "ReturnStmt" for x in astq.walk(n))]
+        run.instance(rule, "%s: every result of best() comes out of the pairwise scan" % short(f), (f["file"], f["line"]), ok=not bypass)
+        for n in bypass:
+            run.violation(rule, "compiler::best|shortcut", "best() returns from a shortcut (`%s`) that does not compare the candidates pairwise with is_more_specific: incomparable candidates are no longer all kept" % (
+                astq.text(n.get("cond"))[:80] if n.get("cond") else n.get("k")), (f["file"], n["l"]))
         res = decls[0]["did"]
         spec = outer[0]["var"]["did"]
         ob = outer[0]["body"]
@@ -2768,3 +2787,67 @@ def hash_bucket_table(f):
                     evs.add("bucket-write")
         out[state] = evs
     return out
+
+
+
+# ---------------------------------------------------------------------------
+# (20) visit marks; the registered abstract flag
+
+def mark_rules(run, rule, ast):
+    """every traversal that marks classes as visited draws its mark from the compiler's one counter, freshly incremented
+    (`++class_mark`): a mark taken from anywhere else can equal one a later traversal uses, and that traversal then skips classes"""
+    n_seen = 0
+    for f in ast.funcs:
+        if not f.get("body") or not re.search(r"compiler<.*>::\w+$", f["name"]):
+            continue
+        decls = {d["did"]: d for n in astq.walk(f["body"]) if n.get("k") == "DeclStmt" for d in n["decls"]}
+        uses = []
+        for n in astq.walk(f["body"]):
+            if n.get("k") == "BinaryOperator" and n.get("op") in ("=", "==", "!="):
+                sides = [astq.strip(x) for x in n["c"]]
+                if any(x.get("k") == "MemberExpr" and x.get("member") == "mark" for x in sides):
+                    other = [x for x in sides if not (x.get("k") == "MemberExpr" and x.get("member") == "mark")]
+                    if other:
+                        uses.append((n, other[0]))
+        for n, o in uses:
+            ok = False
+            src = None
+            if o.get("k") == "MemberExpr" and o.get("member") == "class_mark":
+                ok = True
+            elif o.get("k") == "DeclRefExpr" and o["ref"].get("did") in decls:
+                did = o["ref"]["did"]
+                # every value the local ever gets: its initialiser and all assignments; each must be `++class_mark`
+                vals = [decls[did].get("init")] + [x["c"][1] for x in astq.walk(f["body"]) if x.get("k") == "BinaryOperator" and x.get("op") == "=" and astq.strip(x["c"][0]).get("k") == "DeclRefExpr" and astq.strip(x["c"][0])["ref"].get("did") == did]
+                muts = [x for x in astq.walk(f["body"]) if x.get("k") in ("UnaryOperator", "CompoundAssignOperator") and x.get("op") in ("++", "--", "+=", "-=") and astq.strip(x["c"][0]).get("k") == "DeclRefExpr" and astq.strip(x["c"][0])["ref"].get("did") == did]
+
+                def fresh(v):
+                    v = astq.strip(v) if v is not None else None
+                    return v is not None and v.get("k") == "UnaryOperator" and v.get("op") == "++" and not v.get("postfix") and astq.strip(v["c"][0]).get("k") == "MemberExpr" and astq.strip(v["c"][0]).get("member") == "class_mark"
+                ok = all(fresh(v) for v in vals) and not muts
+                src = "a local that is not always `++class_mark`"
+            n_seen += 1
+            run.instance(rule, "%s: a visit mark is the compiler's counter, freshly incremented" % short(f), (f["file"], n["l"]), ok=ok)
+            if not ok:
+                run.violation(rule, "compiler::%s|mark-source" % f["name"].rsplit("::", 1)[1], "`%s` uses %s as visit mark: marks not drawn from ++class_mark can collide with the mark of a later traversal (assign_slots), which then takes fresh classes for visited" % (
+                    astq.text(n)[:60], src or "`%s`" % astq.text(o)[:40]), (f["file"], n["l"]))
+    if n_seen < 4:
+        run.broken.append("visit marks: only %d uses recognised" % n_seen)
+
+
+def abstract_flag_rules(run, rule, ast):
+    """a class is registered as abstract exactly when std::is_abstract says so (the report's concrete-only figures and nothing else
+    depend on it)"""
+    n_seen = 0
+    for f in ast.funcs:
+        if not f.get("body") or not re.search(r"class_declaration_aux<.*>::class_declaration_aux$", f["name"]):
+            continue
+        for n in astq.walk(f["body"]):
+            if n.get("k") == "BinaryOperator" and n.get("op") == "=" and astq.strip(n["c"][0]).get("k") == "MemberExpr" and astq.strip(n["c"][0]).get("member") == "is_abstract":
+                r = astq.strip(n["c"][1])
+                ok = r.get("k") == "DeclRefExpr" and re.match(r"^std::is_abstract_v<", r["ref"]["name"]) is not None or (r.get("k") in ("DeclRefExpr", "MemberExpr") and re.search(r"std::is_abstract<.*>::value$", astq.refname(r) or "") is not None)
+                n_seen += 1
+                run.instance(rule, "%s: is_abstract = std::is_abstract_v<Class>" % short(f)[:100], (f["file"], n["l"]), ok=ok)
+                if not ok:
+                    run.violation(rule, "class_declaration_aux|is_abstract", "a class is registered as abstract from `%s`, not from std::is_abstract_v<Class>: classes that can have objects are left out of the concrete-only figures" % astq.text(r)[:80], (f["file"], n["l"]))
+    if not n_seen:
+        run.broken.append("class_declaration_aux: assignment of is_abstract not found")
